@@ -16,30 +16,35 @@ Definition conv_kvs (g : cfg) (r : resp) : list ckv :=
   end.
 Definition upd_from (S : list ckv) (u : upd) : Prop :=
   match u with UDel _ => True | UNew k r v | UMod k r v => In (k, r, Some v) S end.
-Definition shp (S : list ckv) (ld : bool) (x : result) : Prop :=
+(* lost: the step declared the connection lost; pf k: the conversion of an input with key k failed *)
+Definition shp (S : list ckv) (ld lost : bool) (pf : N -> bool) (x : result) : Prop :=
   match x with
   | ResStatus InSync => ld = true
+  | ResStatus _ => True
   | ResUpd us => Forall (upd_from S) us
-  | _ => True
+  | ResBackendErr => lost = true
+  | ResParseErr k => pf k = true
   end.
+Definition step_lost (c : cache) (t : bool) (r : resp) : bool :=
+  match r with RListErr LOther => stale c || t | _ => false end.
 
-Lemma shp_mono S S' ld x : incl S S' -> shp S ld x -> shp S' ld x.
+Lemma shp_mono S S' ld lost pf x : incl S S' -> shp S ld lost pf x -> shp S' ld lost pf x.
 Proof.
   intros Hi. destruct x as [[| |]|us| |]; cbn; auto. intros H. eapply Forall_impl; [|exact H].
   intros [k r v|k r v|k]; cbn; auto.
 Qed.
 
-Lemma send_status_shape S ld c s : s <> InSync \/ ld = true -> Forall (shp S ld) (snd (send_status c s)).
+Lemma send_status_shape S ld lost pf c s : s <> InSync \/ ld = true -> Forall (shp S ld lost pf) (snd (send_status c s)).
 Proof.
   intros H. unfold send_status. destruct (st_eqb s (status c)); cbn; constructor; auto.
   destruct s; cbn; auto. destruct H; congruence.
 Qed.
 
-Lemma loop_top_shape S ld c : Forall (shp S ld) (snd (loop_top c)).
+Lemma loop_top_shape S ld lost pf c : Forall (shp S ld lost pf) (snd (loop_top c)).
 Proof.
   unfold loop_top. destruct (pfr c || (rev c =? 0)%N); cbn; [|constructor].
   destruct (crd _ && negb _); cbn; [|constructor].
-  match goal with |- context [send_status ?a ?b] => pose proof (send_status_shape S ld a b) as P; destruct (send_status a b) end.
+  match goal with |- context [send_status ?a ?b] => pose proof (send_status_shape S ld lost pf a b) as P; destruct (send_status a b) end.
   cbn in *. apply P. left. destruct (conn _); congruence.
 Qed.
 
@@ -48,32 +53,34 @@ Proof. induction l; cbn; constructor; cbn; auto. Qed.
 
 Section Sh.
   Variable ord : rmap -> rmap.
+  Variable lost : bool.
+  Variable pf : N -> bool.
 
-  Lemma finish_resync_shape S c old : Forall (shp S true) (snd (finish_resync ord c old)).
+  Lemma finish_resync_shape S c old : Forall (shp S true lost pf) (snd (finish_resync ord c old)).
   Proof.
     unfold finish_resync.
-    assert (P1 : forall c0 s, Forall (shp S true) (snd (send_status c0 s))) by (intros; apply send_status_shape; auto).
+    assert (P1 : forall c0 s, Forall (shp S true lost pf) (snd (send_status c0 s))) by (intros; apply send_status_shape; auto).
     destruct (status c); [pose proof (P1 c Resync) as Q; destruct (send_status c Resync) as [c1 o1]|..];
       match goal with |- context [send_status ?a InSync] => pose proof (P1 a InSync) as Q3; destruct (send_status a InSync) as [c3 o3] end;
       cbn in *; repeat (apply Forall_app; split); auto; destruct old; constructor; cbn; auto using dels_from.
   Qed.
 
-  Lemma send_deletions_shape S ld c : Forall (shp S ld) (snd (send_deletions ord c)).
+  Lemma send_deletions_shape S ld c : Forall (shp S ld lost pf) (snd (send_deletions ord c)).
   Proof.
     unfold send_deletions. destruct (res c) eqn:Er; cbn; [constructor|].
-    assert (Hd : forall l : list (N * N), Forall (shp S ld) (map (fun kr : N * N => ResUpd [UDel (fst kr)]) l)).
+    assert (Hd : forall l : list (N * N), Forall (shp S ld lost pf) (map (fun kr : N * N => ResUpd [UDel (fst kr)]) l)).
     { induction l; cbn; constructor; auto. cbn. repeat constructor. }
     assert (HR : Resync <> InSync \/ ld = true) by (left; congruence).
-    destruct (status c); [pose proof (send_status_shape S ld c Resync HR) as Q; destruct (send_status c Resync)|..];
+    destruct (status c); [pose proof (send_status_shape S ld lost pf c Resync HR) as Q; destruct (send_status c Resync)|..];
       cbn in *; repeat (apply Forall_app; split); auto.
   Qed.
 
-  Lemma handle_one_shape S ld rs old x : In x S -> Forall (shp S ld) (snd (handle_one rs old x)).
+  Lemma handle_one_shape S ld rs old x : In x S -> Forall (shp S ld lost pf) (snd (handle_one rs old x)).
   Proof.
     intros Hi. destruct x as [[k r] v]. unfold handle_one. destruct (mark_valid rs old k) as [rs1 old1].
     destruct v; destruct (lookup k rs1); try destruct (N.eqb _ _); cbn; repeat constructor; cbn; auto.
   Qed.
-  Lemma handle_many_shape S ld xs : forall rs old, incl xs S -> Forall (shp S ld) (snd (handle_many rs old xs)).
+  Lemma handle_many_shape S ld xs : forall rs old, incl xs S -> Forall (shp S ld lost pf) (snd (handle_many rs old xs)).
   Proof.
     induction xs as [|x xs IH]; intros rs old Hi; cbn; [constructor|].
     pose proof (handle_one_shape S ld rs old x (Hi x (or_introl eq_refl))) as P1.
@@ -82,65 +89,79 @@ Section Sh.
     cbn in *. apply Forall_app; auto.
   Qed.
   Lemma handle_wl_shape S ld g c old k r v :
-    incl (fst (convert (cv g) k r v)) S -> Forall (shp S ld) (snd (handle_wl g c old k r v)).
+    incl (fst (convert (cv g) k r v)) S -> (snd (convert (cv g) k r v) = true -> pf k = true) ->
+    Forall (shp S ld lost pf) (snd (handle_wl g c old k r v)).
   Proof.
-    intros Hi. unfold handle_wl. destruct (convert (cv g) k r v) as [kvs e]. cbn in Hi.
+    intros Hi Hpf. unfold handle_wl. destruct (convert (cv g) k r v) as [kvs e]. cbn in Hi, Hpf.
     pose proof (handle_many_shape S ld kvs (res c) old Hi) as P. destruct (handle_many (res c) old kvs) as [[rs1 old1] o1].
-    cbn in *. apply Forall_app; split; auto. destruct e; repeat constructor.
+    cbn in *. apply Forall_app; split; auto. destruct e; repeat constructor. cbn. auto.
   Qed.
   Lemma handle_items_shape S ld g items : forall c old,
     incl (flat_map (fun i => fst (convert (cv g) (ikey i) (irev i) (Some (ival i)))) items) S ->
-    Forall (shp S ld) (snd (handle_items g c old items)).
+    (forall i, In i items -> snd (convert (cv g) (ikey i) (irev i) (Some (ival i))) = true -> pf (ikey i) = true) ->
+    Forall (shp S ld lost pf) (snd (handle_items g c old items)).
   Proof.
-    induction items as [|i items IH]; intros c old Hi; cbn; [constructor|]. cbn in Hi.
-    pose proof (handle_wl_shape S ld g c old (ikey i) (irev i) (Some (ival i)) (fun y Hy => Hi y (in_or_app _ _ _ (or_introl Hy)))) as P1.
+    induction items as [|i items IH]; intros c old Hi Hpf; cbn; [constructor|]. cbn in Hi.
+    pose proof (handle_wl_shape S ld g c old (ikey i) (irev i) (Some (ival i)) (fun y Hy => Hi y (in_or_app _ _ _ (or_introl Hy)))
+                  (Hpf i (or_introl eq_refl))) as P1.
     destruct (handle_wl g c old (ikey i) (irev i) (Some (ival i))) as [[c1 old1] o1].
-    specialize (IH c1 old1 (fun y Hy => Hi y (in_or_app _ _ _ (or_intror Hy)))). destruct (handle_items g c1 old1 items) as [[c2 old2] o2].
+    specialize (IH c1 old1 (fun y Hy => Hi y (in_or_app _ _ _ (or_intror Hy))) (fun j Hj => Hpf j (or_intror Hj))). destruct (handle_items g c1 old1 items) as [[c2 old2] o2].
     cbn in *. apply Forall_app; auto.
   Qed.
 
-  Ltac lt_shape S ld :=
-    match goal with |- context [loop_top ?a] => pose proof (loop_top_shape S ld a) as PL; destruct (loop_top a) as [cL oL] end.
+End Sh.
+
+Lemma stale_c1 c x : stale (set_crd (set_stale c x) true) = x.
+Proof. destruct c; reflexivity. Qed.
+Lemma parse_fails_list g items lrev i : In i items -> snd (convert (cv g) (ikey i) (irev i) (Some (ival i))) = true -> parse_fails g (RListOk items lrev) (ikey i) = true.
+Proof. intros Hi Hs. cbn. apply existsb_exists. exists i. rewrite N.eqb_refl, Hs. auto. Qed.
+
+Section Sh2.
+  Variable ord : rmap -> rmap.
+
+  Ltac lt_shape S ld lost pf :=
+    match goal with |- context [loop_top ?a] => pose proof (loop_top_shape S ld lost pf a) as PL; destruct (loop_top a) as [cL oL] end.
 
   Lemma cache_step_shape g c t r c' rs :
-    cache_step ord g c t r = Some (c', rs) -> Forall (shp (conv_kvs g r) (list_done r)) rs.
+    cache_step ord g c t r = Some (c', rs) -> Forall (shp (conv_kvs g r) (list_done r) (step_lost c t r) (parse_fails g r)) rs.
   Proof.
     unfold cache_step. cbv zeta. set (c1 := set_stale c (stale c || t)). set (S := conv_kvs g r). set (ld := list_done r).
+    set (lost := step_lost c t r). set (pf := parse_fails g r).
     destruct (ph c1); destruct r as [items lrev|e| |e|e]; try discriminate.
     - (* list ok *)
       unfold step_list. subst ld. cbn [list_done].
       set (c0 := set_crd (mark_connected c1) true).
-      assert (P1 : Forall (shp S true) (snd (match status c0 with Wait => send_status c0 Resync | _ => (c0, []) end))).
+      assert (P1 : Forall (shp S true lost pf) (snd (match status c0 with Wait => send_status c0 Resync | _ => (c0, []) end))).
       { destruct (status c0); cbn; try constructor. apply send_status_shape. left; congruence. }
       destruct (match status c0 with Wait => send_status c0 Resync | _ => (c0, []) end) as [c2 o1].
-      pose proof (handle_items_shape S true g items (set_res c2 []) (res c2) (incl_refl _)) as P2.
+      pose proof (handle_items_shape lost pf S true g items (set_res c2 []) (res c2) (incl_refl _) (fun i Hi Hs => parse_fails_list g items lrev i Hi Hs)) as P2.
       destruct (handle_items g (set_res c2 []) (res c2) items) as [[c3 old] o2].
-      pose proof (finish_resync_shape S c3 old) as P3. destruct (finish_resync ord c3 old) as [c4 o3]. cbn in P1, P2, P3.
+      pose proof (finish_resync_shape ord lost pf S c3 old) as P3. destruct (finish_resync ord c3 old) as [c4 o3]. cbn in P1, P2, P3.
       destruct (zero_rev lrev).
-      + destruct items; [|discriminate]. unfold seq2. lt_shape S true. intros H. apply some_inj, pair_inj in H. destruct H as [_ <-].
+      + destruct items; [|discriminate]. unfold seq2. lt_shape S true lost pf. intros H. apply some_inj, pair_inj in H. destruct H as [_ <-].
         cbn in PL. repeat (apply Forall_app; split); auto.
       + intros H. apply some_inj, pair_inj in H. destruct H as [_ <-]. repeat (apply Forall_app; split); auto.
     - (* list errors *)
       unfold step_list. destruct e.
-      + pose proof (finish_resync_shape S c1 []) as P3. destruct (finish_resync ord c1 []) as [c4 o3]. unfold seq2.
-        lt_shape S ld. intros H. apply some_inj, pair_inj in H. destruct H as [_ <-]. cbn in *. apply Forall_app; auto.
-      + lt_shape S ld. intros H. apply some_inj, pair_inj in H. destruct H as [_ <-]. exact PL.
-      + destruct (stale (set_crd c1 true)).
+      + pose proof (finish_resync_shape ord lost pf S c1 []) as P3. destruct (finish_resync ord c1 []) as [c4 o3]. unfold seq2.
+        lt_shape S ld lost pf. intros H. apply some_inj, pair_inj in H. destruct H as [_ <-]. cbn in *. apply Forall_app; auto.
+      + lt_shape S ld lost pf. intros H. apply some_inj, pair_inj in H. destruct H as [_ <-]. exact PL.
+      + assert (Est : stale (set_crd c1 true) = lost) by (subst c1 lost; apply stale_c1). rewrite Est. destruct lost eqn:El.
         * destruct (sd g).
-          -- match goal with |- context [send_deletions ord ?a] => pose proof (send_deletions_shape S ld a) as PD; destruct (send_deletions ord a) as [cD oD] end.
-             unfold seq2. lt_shape S ld. intros H. apply some_inj, pair_inj in H. destruct H as [_ <-]. cbn in *.
-             constructor; [exact I|]. apply Forall_app; auto.
-          -- unfold seq2. lt_shape S ld. intros H. apply some_inj, pair_inj in H. destruct H as [_ <-]. cbn in *.
-             constructor; [exact I|]. exact PL.
-        * lt_shape S ld. intros H. apply some_inj, pair_inj in H. destruct H as [_ <-]. exact PL.
+          -- match goal with |- context [send_deletions ord ?a] => pose proof (send_deletions_shape ord lost pf S ld a) as PD; destruct (send_deletions ord a) as [cD oD] end.
+             unfold seq2. lt_shape S ld lost pf. intros H. apply some_inj, pair_inj in H. destruct H as [_ <-]. cbn in *. rewrite Est in PD, PL.
+             constructor; [reflexivity|]. apply Forall_app; auto.
+          -- unfold seq2. lt_shape S ld lost pf. intros H. apply some_inj, pair_inj in H. destruct H as [_ <-]. cbn in *. rewrite Est in PL.
+             constructor; [reflexivity|]. exact PL.
+        * lt_shape S ld lost pf. intros H. apply some_inj, pair_inj in H. destruct H as [_ <-]. rewrite El in PL. exact PL.
     - intros H. apply some_inj, pair_inj in H. destruct H as [_ <-]. constructor.
     - unfold step_watch. destruct e; try destruct (stale c1); try destruct (5 <=? _);
-        lt_shape S ld; intros H; apply some_inj, pair_inj in H; destruct H as [_ <-]; exact PL.
+        lt_shape S ld lost pf; intros H; apply some_inj, pair_inj in H; destruct H as [_ <-]; exact PL.
     - unfold step_event, reenter. destruct e.
       1-3: match goal with |- context [handle_wl ?gg ?cc [] ?k ?r ?v] =>
-             pose proof (handle_wl_shape S ld gg cc [] k r v (incl_refl _)) as P; destruct (handle_wl gg cc [] k r v) as [[cH oldH] oH] end;
-           intros H; apply some_inj, pair_inj in H; destruct H as [_ <-]; exact P.
+             pose proof (handle_wl_shape lost pf S ld gg cc [] k r v (incl_refl _)) as P; destruct (handle_wl gg cc [] k r v) as [[cH oldH] oH] end;
+           intros H; apply some_inj, pair_inj in H; destruct H as [_ <-]; apply P; intros Hs; subst pf; cbn; rewrite N.eqb_refl, Hs; reflexivity.
       1,4: intros H; apply some_inj, pair_inj in H; destruct H as [_ <-]; constructor.
-      all: try destruct (5 <=? _); lt_shape S ld; intros H; apply some_inj, pair_inj in H; destruct H as [_ <-]; exact PL.
+      all: try destruct (5 <=? _); lt_shape S ld lost pf; intros H; apply some_inj, pair_inj in H; destruct H as [_ <-]; exact PL.
   Qed.
-End Sh.
+End Sh2.
